@@ -65,6 +65,7 @@ pub struct St {
     next_uid: i32,
     has_index: bool,
     has_n1: bool,
+    depth: usize,
 }
 
 fn copy_tree(from: &Path, to: &Path) -> std::io::Result<(usize, u64)> {
@@ -135,6 +136,10 @@ struct Sys {
     roots: Vec<(String, bool)>,
     stats: Mutex<BTreeMap<String, u64>>,
     foreign: Mutex<BTreeSet<String>>,
+    /// engine-internal wall cap: transitions that would start after it are skipped and counted
+    start: std::time::Instant,
+    wall_s: f64,
+    max_depth: usize,
 }
 
 impl Sys {
@@ -329,7 +334,7 @@ impl Sut for Sys {
             versions.insert(2, s2);
             out.push((
                 label.clone(),
-                St { stable: *stable, dir, versions, tags: BTreeMap::new(), next_uid: 6, has_index: false, has_n1: false },
+                St { stable: *stable, dir, versions, tags: BTreeMap::new(), next_uid: 6, has_index: false, has_n1: false, depth: 0 },
             ));
         }
         out
@@ -364,6 +369,10 @@ impl Sut for Sys {
         vcore::hash64(json!([st.stable, vs, st.tags, st.has_index, st.has_n1, st.next_uid]).to_string().as_bytes())
     }
     fn step(&self, st: &St, op: &Op) -> Step<St> {
+        if self.start.elapsed().as_secs_f64() > self.wall_s {
+            self.bump("transitions_skipped_by_wall_cap", 1);
+            return Step { next: None, outcome: "skipped-by-wall-cap".into(), violations: vec![] };
+        }
         let work = DirGuard::new();
         let dest = DirGuard::new();
         let mode = if st.stable { "stable" } else { "plain" };
@@ -479,7 +488,15 @@ impl Sut for Sys {
                 vec![Violation::new("panic", &format!("{mode}/after-{}/panic-on-copy", kind(op)), format!("panic while reading the copy: {site}"), json!({}))]
             }
         };
-        next.dir = dest;
+        next.depth = st.depth + 1;
+        if next.depth >= self.max_depth {
+            // a state of the last level is never expanded: remove its directory now (in this worker)
+            // instead of keeping hundreds of directories until the end; the state keeps an empty dir
+            drop(dest);
+            next.dir = DirGuard::new();
+        } else {
+            next.dir = dest;
+        }
         Step { next: Some(next), outcome: "ok".into(), violations: viol }
     }
 }
@@ -490,6 +507,9 @@ pub fn run(ctx: &Ctx) -> Outcome {
         roots: vec![("plain".into(), false), ("stable".into(), true)],
         stats: Mutex::new(BTreeMap::new()),
         foreign: Mutex::new(BTreeSet::new()),
+        start: std::time::Instant::now(),
+        wall_s: if ctx.replay.is_some() { 1e9 } else { ctx.tier.pick(28.0, 760.0) },
+        max_depth: if ctx.replay.is_some() { usize::MAX } else { ctx.tier.pick(3, 4) },
     };
     if let Some(art) = ctx.replay_case() {
         let key = art["key"].as_str().unwrap_or("").to_string();
@@ -504,10 +524,18 @@ pub fn run(ctx: &Ctx) -> Outcome {
         out.set("exhaustive", false);
         return out;
     }
-    let caps = Caps { max_depth: ctx.tier.pick(2, 3), max_states: 100_000, wall_s: ctx.tier.pick(35.0, 780.0) };
+    let caps = Caps { max_depth: ctx.tier.pick(3, 4), max_states: 100_000, wall_s: ctx.tier.pick(35.0, 780.0) };
     let rep = seqx::explore(&sys, &caps, ctx.workers);
     out.violations.extend(rep.violations.iter().cloned());
     rep.fill(&mut out);
+    let skipped = sys.stats.lock().unwrap().get("transitions_skipped_by_wall_cap").copied().unwrap_or(0);
+    if skipped > 0 {
+        out.set("exhaustive", false);
+        out.set("cap_hit", format!("engine wall cap: {skipped} depth-{} transitions skipped (counted in transitions with outcome skipped-by-wall-cap, not validated)", rep.max_depth));
+        let done = rep.transitions.saturating_sub(skipped);
+        out.set("transitions", done);
+        out.set("traces_validated_against_impl", done);
+    }
     out.set("copy_stats", json!(*sys.stats.lock().unwrap()));
     out.set("foreign_findings", json!(*sys.foreign.lock().unwrap()));
     out.assume("snapshots are value snapshots (schema, ordered rows, deleted-row count, config, index names) taken where each version was written");
